@@ -27,14 +27,19 @@ CATALOGUES = {
         renames=[("A", "D"), ("A", "B"), ("B", "p1"), ("p1", "q"), ("l1", "l2"), ("C", "zz"), ("A", "4"), ("3", "5"),
                  ("l1", "6"), ("p1", "9")],
         tagedits=[("A", "xx:i:5"), ("B", "LN:i:7"), ("p1", "yy:Z:a b"), ("l1", "RC:i:3")],
-        deltags=[("l1", "ID:Z:l1"), ("c1", "ID:Z:c1")]),
+        deltags=[("l1", "ID:Z:l1"), ("c1", "ID:Z:c1")],
+        setfs=[("S|C|*", 2, "ACG"), ("S|A|ACGT", 2, "*"), ("L|A|+|B|+|2M1D1M", 5, "*"), ("L|A|+|C|+|1M", 2, "-"),
+               ("L|A|+|C|+|1M", 3, "B"), ("C|A|+|B|+|1|2M", 5, "0"), ("C|A|+|B|+|1|2M", 6, "*"), ("C|A|+|B|+|1|2M", 2, "-"),
+               ("C|A|+|B|+|1|2M", 1, "C"), ("P|p1|A+,B+|2M1D1M", 3, "*"), ("P|p2|B-,A-|*", 2, "A+,B+"),
+               ("C|A|-|B|+|0|*|ID:Z:c1", 5, "2"), ("C|A|+|B|+|1|2M", 5, "!x")]),
     "gfa1s": dict(version="gfa1", lines=[
         "S|A|*", "S|B|*", "S|C|*",
         "L|A|+|B|+|2M1D1M", "L|A|+|C|+|*", "L|B|-|A|-|1M1I2M", "L|A|+|A|-|*",
         "C|A|+|B|+|1|2M",
         "P|p1|A+,B+|2M1D1M", "P|p2|B-,A-|*",
     ], ids=["A", "B", "p1", "zz"], renames=[("A", "D"), ("A", "B")], tagedits=[("A", "xx:i:5"), ("p1", "yy:Z:a b")],
-        validate=True),
+        validate=True,
+        setfs=[("C|A|+|B|+|1|2M", 5, "0"), ("L|A|+|B|+|2M1D1M", 5, "*"), ("C|A|+|B|+|1|2M", 4, "-")]),
     "gfa2": dict(version="gfa2", lines=[
         "S|a|4|ACGT", "S|b|6|*", "S|c|3|*",
         "E|e1|a+|b+|2|4$|0|2|2M", "E|e2|a+|b-|0|4$|1|5|*", "E|e3|a+|c+|1|2|1|2|*",
@@ -49,14 +54,21 @@ CATALOGUES = {
     ], ids=["a", "b", "c", "e1", "e4", "g1", "o1", "o2", "u1", "u3", "zz", "2"], unused=True,
         renames=[("a", "d"), ("a", "b"), ("e1", "e9"), ("g1", "g9"), ("o1", "u1"), ("u1", "u2"), ("b", "e1"),
                  ("a", "8"), ("e1", "9"), ("2", "11")],
-        tagedits=[("a", "xx:i:5"), ("e1", "yy:Z:a b"), ("u1", "yy:i:9"), ("o1", "xx:i:2"), ("g1", "zz:Z:q")]),
+        tagedits=[("a", "xx:i:5"), ("e1", "yy:Z:a b"), ("u1", "yy:i:9"), ("o1", "xx:i:2"), ("g1", "zz:Z:q")],
+        setfs=[("S|a|4|ACGT", 3, "*"), ("S|b|6|*", 2, "7"), ("E|e1|a+|b+|2|4$|0|2|2M", 8, "*"), ("E|e1|a+|b+|2|4$|0|2|2M", 4, "1"),
+               ("E|e1|a+|b+|2|4$|0|2|2M", 2, "a-"), ("E|e2|a+|b-|0|4$|1|5|*", 8, "4M"), ("G|g1|a+|b-|10|*", 4, "7"),
+               ("G|g1|a+|b-|10|*", 5, "3"), ("G|g1|a+|b-|10|*", 3, "c+"), ("F|a|x+|0|2|0|2|*", 2, "y+"),
+               ("F|a|x+|0|2|0|2|*", 2, "x-"), ("F|a|x-|1|3|0|2|*", 3, "0"), ("F|a|x+|0|2|0|2|*", 1, "b"),
+               ("F|a|x+|0|2|0|2|*", 7, "2M"), ("O|o1|a+ b+", 2, "a+"), ("U|u1|a e1 g1", 2, "a"),
+               ("G|g1|a+|b-|10|*", 4, "!x")]),
     "gfa2s": dict(version="gfa2", lines=[
         "S|a|4|*", "S|b|6|*",
         "E|e1|a+|b+|2|4$|0|2|*", "E|*|a+|b+|2|4$|0|2|*", "E|e2|a+|b-|0|4$|1|5|*",
         "G|g1|a+|b-|10|*",
         "O|o1|a+ e1+ b+", "U|u1|a e1 g1", "U|u2|u1 o1", "O|o6|e1- a-", "U|u1|b|xx:i:1", "U|u1|a|xx:Z:1",
     ], ids=["a", "b", "e1", "g1", "o1", "u1", "zz"], renames=[("a", "d"), ("e1", "u1")],
-        tagedits=[("a", "xx:i:5"), ("u1", "yy:i:9")], validate=True),
+        tagedits=[("a", "xx:i:5"), ("u1", "yy:i:9")], validate=True,
+        setfs=[("E|e1|a+|b+|2|4$|0|2|*", 8, "2M"), ("E|e1|a+|b+|2|4$|0|2|*", 4, "1"), ("G|g1|a+|b-|10|*", 4, "7")]),
 }
 
 
@@ -153,6 +165,11 @@ def build_ops(cat):
     for ln in cat["lines"]:
         if ln[0] in "LCEGFOUP":
             ops.append(dict(k="disc", text=text_of(ln), id="", id2=""))
+    for ln, pos, val in cat.get("setfs", []):
+        f = ln.split("|")
+        new = f[:pos] + [val.lstrip("!")] + f[pos + 1:]
+        ops.append(dict(k="setf", text="", texts=[text_of(ln), "\t".join(new)], id="", n=pos,
+                        id2="invalid" if val.startswith("!") else "valid"))
     for n in cat.get("rsc", []):
         ops.append(dict(k="rsc", text="", id="", id2="", n=n))
     if cat.get("rsl"):
@@ -246,6 +263,15 @@ def apply_op(gfapy, gfa, op, version):
             gfa.rm(o)              # removal by instance through the Gfa ...
         else:
             o.disconnect()         # ... or through the line itself
+    elif k == "setf":
+        o = find_instance(gfa, op["texts"][0], version)
+        if o is None:
+            raise gfapy.NotFoundError("no such line")
+        value = op["texts"][1].split("\t")[op["n"]]
+        if len(value) % 2:
+            o.set(o.positional_fieldnames[op["n"] - 1], value)
+        else:
+            setattr(o, o.positional_fieldnames[op["n"] - 1], value)
     elif k in ("settag", "deltag"):
         o = find_named(gfa, op["id"])
         if o is None or o.virtual:
@@ -560,7 +586,10 @@ def catalog_json(catname, depth, cfgversion=None, vlevel=1, ops=None):
         l = 0
         if op["text"]:
             l = pool.add(abstract_input(op["text"]))
-        out.append({"k": op["k"], "l": l, "id": op["id"], "id2": op["id2"], "n": op.get("n", 0)})
+        rec = {"k": op["k"], "l": l, "id": op["id"], "id2": op["id2"], "n": op.get("n", 0)}
+        if op["k"] == "setf":
+            rec["l"], rec["l2"] = (pool.add(abstract_input(t)) for t in op["texts"])
+        out.append(rec)
     return {"cfg": {"version": ver, "vlevel": vlevel, "dialect": "standard"}, "pool": pool.items, "ops": out,
             "depth": depth}, ops
 
@@ -616,6 +645,68 @@ def doc_jobs(catname, n, nmut, seed, vlevel=1, kind="doc", cfgversion=None):
             h.append(rnd.choice(others) if rnd.random() < 0.6 else rnd.choice(adds))
         jobs.append(dict(id="%s-%s-%d" % (kind, catname, i), kind=kind,
                          cfg=dict(version=cfgversion or cat["version"], vlevel=vlevel),
+                         ops=h, universe=universe))
+    return jobs
+
+
+EDIT_VALUES = {
+    # (record type, version or None, position) -> candidate values (valid for the datatype)
+    ("S", "gfa1", 2): ["*", "ACG", "AC"], ("S", "gfa2", 2): ["4", "7"], ("S", "gfa2", 3): ["*", "ACGT"],
+    ("L", None, 1): ["B", "C"], ("L", None, 2): ["+", "-"], ("L", None, 3): ["A", "C"], ("L", None, 4): ["+", "-"],
+    ("L", None, 5): ["*", "1M", "2M1D1M"],
+    ("C", None, 1): ["B", "C"], ("C", None, 2): ["+", "-"], ("C", None, 3): ["A", "C"], ("C", None, 4): ["+", "-"],
+    ("C", None, 5): ["0", "1", "2"], ("C", None, 6): ["*", "1M", "2M"],
+    ("P", None, 2): ["A+,B+", "B-,A-"], ("P", None, 3): ["*", "1M"],
+    ("E", None, 2): ["a+", "b-"], ("E", None, 3): ["b+", "c+"], ("E", None, 4): ["0", "1"], ("E", None, 5): ["2", "4$"],
+    ("E", None, 6): ["0", "1"], ("E", None, 7): ["2", "3$"], ("E", None, 8): ["*", "2M", "1M1D"],
+    ("G", None, 2): ["a-", "b+"], ("G", None, 3): ["b+", "c+"], ("G", None, 4): ["5", "7"], ("G", None, 5): ["*", "3"],
+    ("F", None, 1): ["b", "c"], ("F", None, 2): ["y+", "x-", "x+"], ("F", None, 3): ["0", "1"], ("F", None, 4): ["2", "3"],
+    ("F", None, 5): ["0", "1"], ("F", None, 6): ["2", "3"], ("F", None, 7): ["*", "1M"],
+    ("O", None, 2): ["a+", "a+ b+"], ("U", None, 2): ["a", "a b"],
+}
+
+
+def edit_jobs(catname, n, nmut, seed, vlevel=1, kind="edit"):
+    """a document, then chained edits of positional fields of its (connected) lines - the next edit of a
+    line starts from what the previous one left - mixed with removals of the edited lines and of the
+    segments they depend on (SetField of spec/Gfa.tla)"""
+    cat = CATALOGUES[catname]
+    ver = cat["version"]
+    rnd = random.Random(seed)
+    adds = [text_of(l) for l in cat["lines"] if l[0] in "SLCPEGFOU"]
+    universe = sorted(set(cat["ids"]))
+    A = lambda t: dict(k="add", text=t, id="", id2="")
+    jobs = []
+    for i in range(n):
+        doc = rnd.sample(adds, rnd.randint(3, min(len(adds), 10)))
+        cur = list(doc)
+        h = [A(t) for t in doc]
+        for _ in range(nmut):
+            c = rnd.random()
+            t = rnd.choice(cur)
+            f = t.split("\t")
+            if c < 0.65:
+                npos = {"S": 2 if ver == "gfa1" else 3, "L": 5, "C": 6, "P": 3, "E": 8, "G": 5, "F": 7, "O": 2, "U": 2}[f[0]]
+                pos = rnd.randint(2 if f[0] in "SPEGOU" else 1, npos)
+                vals = EDIT_VALUES.get((f[0], ver, pos)) or EDIT_VALUES.get((f[0], None, pos))
+                if not vals:
+                    continue
+                v = rnd.choice(vals)
+                new = "\t".join(f[:pos] + [v] + f[pos + 1:])
+                h.append(dict(k="setf", text="", texts=[t, new], id="", id2="valid", n=pos))
+                # the model decides whether the edit is accepted; the generator follows the documented rule
+                # only to chain edits (a wrong guess just makes the next edit address a missing line)
+                refused = (f[0] == "L") or (f[0] in "CGF" and pos in ((1, 3) if f[0] == "C" else (2, 3) if f[0] == "G" else (1,))) \
+                    or (f[0] == "E" and pos <= 7) or (f[0] in "POU")
+                if not refused:
+                    cur[cur.index(t)] = new
+            elif c < 0.8 and f[0] != "S":
+                h.append(dict(k="disc", text=t, id="", id2=""))
+            elif c < 0.9:
+                h.append(dict(k="rm", text="", id=rnd.choice(universe), id2=""))
+            else:
+                h.append(A(rnd.choice(adds)))
+        jobs.append(dict(id="%s-%s-%d" % (kind, catname, i), kind=kind, cfg=dict(version=ver, vlevel=vlevel),
                          ops=h, universe=universe))
     return jobs
 
